@@ -858,7 +858,7 @@ package types
 //@   ensures [rejectedReturnsNothing] err != nil ==> len(updates) == 0 && len(removals) == 0
 //@   loop 1:
 //@     invariant 0 <= iter && iter <= len(changes) && len(changes) == len(origChanges) && err == nil
-//@     invariant len(updates) + len(removals) == iter && cap(updates) == len(changes) && cap(removals) == len(changes) && fresh(updates) && fresh(removals) && !sameArray(updates, removals)
+//@     invariant len(updates) + len(removals) == iter && cap(updates) == len(changes) && cap(removals) == len(changes) && fresh(updates) && fresh(removals) && !sameArray(updates, removals) && !sameArray(changes, updates) && !sameArray(changes, removals)
 //@     invariant forall k int :: 0 <= k && k < len(changes) ==> changes[k] != nil
 //@     invariant forall k int :: 0 <= k && k < len(updates) ==> updates[k] != nil && 0 < updates[k].VotingPower && updates[k].VotingPower <= 1152921504606846975
 //@     invariant forall k int :: 0 <= k && k < len(removals) ==> removals[k] != nil && removals[k].VotingPower == 0
